@@ -489,7 +489,7 @@ def _run(spec, world, rng, r, base):
     return {"violations": viol, "nontrivial": nontrivial,
             "counters": {"clean_success": int(clean and so == "success" and ro == "success"),
                          "data_faults_fired": int(kind == "datafault" and fired), "ack_faults_fired": int(kind == "ackfault" and fired),
-                         "liar_cases": int(kind == "liar" and bool(liar_log)), "receiver_disk_limit_inside_the_last_record": int(kind == "fsize"), "receiver_failed_at_the_disk_limit": int(kind == "fsize" and ro != "success"), "grow_cases": int(kind == "grow" and bool(grown)), "stale_tmp_cases": int(bool(desc.get("stale_tmp"))), "unsendable_entries_skipped": len(desc.get("unsendable", [])), "clean_failed": int(bool(clean_failure)), "hangs": int(bool(hang)), "faults_not_reached": int(kind in ("datafault", "ackfault") and not fired),
+                         "liar_cases": int(kind == "liar" and bool(liar_log)), "hard_linked_entries_sent": desc.get("hardlinks", 0), "receiver_disk_limit_inside_the_last_record": int(kind == "fsize"), "receiver_failed_at_the_disk_limit": int(kind == "fsize" and ro != "success"), "grow_cases": int(kind == "grow" and bool(grown)), "stale_tmp_cases": int(bool(desc.get("stale_tmp"))), "unsendable_entries_skipped": len(desc.get("unsendable", [])), "clean_failed": int(bool(clean_failure)), "hangs": int(bool(hang)), "faults_not_reached": int(kind in ("datafault", "ackfault") and not fired),
                          "payload_" + payload: 1, "outcomes_through_the_cli_exit_status_mapping": int(via_dispatch), **({"dest_%s_%s_%s" % (spec["dest"], payload, "accept-file" if spec["accept"] else "prompt"): int(so == "success" and ro == "success")} if spec.get("dest") else {}), **({"mode_" + spec["mode"]: int(so == "success" and ro == "success") if spec["mode"] != "verify-no" else int(so not in ("success", "pending"))} if spec.get("mode") else {}), "via_relay": int(any(l.tags.get("port") == 4001 for l in r.links)),
                          "steps": world.step, "bytes_payload": desc.get("size", 0)},
             "sets": {"clean_transfers_that_failed": [clean_failure] if clean_failure else [],
